@@ -45,6 +45,7 @@ class State:
         self.written_locals = set()
         self.written_at = {}      # heap key -> list of ref terms written
         self.log = []
+        self.log_untracked = set()     # callees called inside loop bodies: their entries are missing from `log` after the loop
         self.ghost = False        # inside spec / contract evaluation: no safety obligations
         self.pure = False         # boolean operators build terms instead of branching
         self.unfolded = set()
@@ -65,6 +66,7 @@ class State:
         s.written_locals = set(self.written_locals)
         s.written_at = {k: list(v) for k, v in self.written_at.items()}
         s.log = list(self.log)
+        s.log_untracked = set(self.log_untracked)
         s.ghost = self.ghost
         s.pure = self.pure
         s.unfolded = set(self.unfolded)
